@@ -22,7 +22,7 @@ LEVEL = {
  "C14": ("E1 + E2: results in the model's outcome set; monitors: no park / signal wait inside try_* and drain_into, additionally no yield and a step bound inside *_realtime, with the peer preempted at every point", "6.14"),
  "C15": ("E1 + E2 + tracker: future dropped at every point of its life x all schedules; delivered once xor dropped once, no access to the future afterwards, later operations per the model", "6.15"),
  "C16": ("E2 sequential conformance over all legal poll scripts (spurious polls, waker switches, polls after completion, repeated stream waits) + E1 of the same scripts racing with a peer", "6.16"),
- "C17": ("E1 on the real spin lock driven directly: overlap monitor + loom causality on the protected cell + try_lock step bound + termination, parallelism 1 and 2; the lock's own retry loop executed through all its phases (lock_spin knob)", "6.17"),
+ "C17": ("E1 on the real spin lock driven directly: overlap monitor + loom causality on the protected cell + try_lock step bound + termination, parallelism 1 and 2; the lock's own retry loop executed through all its phases and through holds of 200 000 and 13 000 000 failed attempts (lock_spin knob)", "6.17"),
  "C18": ("E2: every call sequence of the full single-thread API alphabet up to a depth (no deduplication) executed on the real code and compared with the reference model step by step; deeper on the deduplicated model state graph", "6.18"),
  "C19": ("E1 + E2: channel state x vector state x schedules; count = appended, prefix untouched, order, drained senders succeed, never waits", "6.19"),
 }
@@ -49,7 +49,7 @@ for i in range(1, 21):
             "replay_cmd_template": "./check replay {path}",
             "engine": "kmc",
             "level_claimed": {"category": "model_checking", "text": text, "design_ref": f"DESIGN.md {ref}"},
-            "level_note": "trusted base: loom 0.7.2 (C11 model, DPOR; bounded DPOR where a preemption bound is listed in the evidence), rustc, the shim /verif/rt, the reference model /verif/mc/src/model.rs, the stutter-equivalence arguments for the spin cut and for modelling a failed lock acquisition as blocking (DESIGN 2.1); bounds: <=4 threads, <=3 ops per thread, capacities {0,1,2,unbounded}, representative payload values",
+            "level_note": "trusted base: loom 0.7.2 (C11 model, DPOR; bounded DPOR where a preemption bound is listed in the evidence), rustc, the shim /verif/rt, the reference model /verif/mc/src/model.rs, the stutter-equivalence arguments for the spin cut and for modelling a failed lock acquisition as blocking (DESIGN 2.1); bounds: <=4 threads, <=3 ops per thread in the concurrent families (longer scripted single-thread prefixes where stated), capacities {0,1,2,3,unbounded} (C08 also 3 000 000), representative payload values",
             "technique": TECH.get(pid, DEFAULT_TECH),
         })
     elif pid == "C20":
